@@ -4,11 +4,9 @@
 use crate::gen::{base_cfg, swarm, universe_for, Family, Gen, RunSpec, MAP_CORE};
 use crate::plan::Plan;
 use crate::rng::Rng;
-use crate::scenario::{Violation, Kd};
+use crate::scenario::{Kd, Violation};
 use crate::state::EqMode;
 use std::collections::VecDeque;
-
-pub const CLAIMED: &[&str] = &["C01", "C02", "C03", "C04", "C05", "C06", "C07", "C08", "C09", "C10", "C11", "C12", "C13", "C14", "C15", "C18", "C19", "C20"];
 
 fn gen(family: Family, universe: u32, weights: Vec<(Kd, u32)>) -> Gen {
     Gen {
@@ -25,6 +23,9 @@ fn gen(family: Family, universe: u32, weights: Vec<(Kd, u32)>) -> Gen {
         entry_apis: crate::mapw_entry::N_API,
         huge_reserve: false,
         fresh_counter: 0,
+        max_hint: 3000,
+        churn: None,
+        order: Vec::new(),
     }
 }
 
@@ -34,6 +35,16 @@ fn pick_world(rng: &mut Rng, ws: &[(&str, u32)]) -> String {
 }
 
 const MAP_WORLDS: &[(&str, u32)] = &[("M16", 5), ("Mpod", 2), ("M208", 1), ("M64a", 1)];
+
+/// State-building operations that every map profile mixes in.
+const MAP_BUILD: &[(Kd, u32)] = &[(Kd::Insert, 30), (Kd::Remove, 14), (Kd::Extend, 3), (Kd::Clear, 1), (Kd::Reserve, 1), (Kd::ShrinkTo, 1), (Kd::ShrinkToFit, 1), (Kd::WithCapacity, 1), (Kd::Get, 2), (Kd::Entry, 2), (Kd::Retain, 1)];
+
+fn with(base: &[(Kd, u32)], extra: &[(Kd, u32)], rng: &mut Rng) -> Vec<(Kd, u32)> {
+    let mut w = swarm(rng, base);
+    // the property's own operations are never swarmed away
+    w.extend_from_slice(extra);
+    w
+}
 
 /// Builds the run specification of one simulated run of `prop`.
 pub fn spec_for(prop: &str, thorough: bool, rng: &mut Rng) -> RunSpec {
@@ -47,6 +58,25 @@ pub fn spec_for(prop: &str, thorough: bool, rng: &mut Rng) -> RunSpec {
             g.macro_den = *rng.pick(&[12, 25, 50]);
             RunSpec { world, cfg, gen: g, n_ops }
         }
+        "C02" => {
+            // safety monitors under cancellation: every iterator/drain/extract_if/entry may be dropped or
+            // forgotten part-way; lying size hints; all layouts
+            let world = pick_world(rng, &[("M16", 3), ("Mpod", 2), ("M208", 2), ("M64a", 3)]);
+            let cfg = base_cfg(rng, 3);
+            let mut g = gen(Family::Map, universe, with(MAP_CORE, &[(Kd::Iter, 8), (Kd::IntoIter, 8), (Kd::Drain, 8), (Kd::ExtractIf, 8), (Kd::Entry, 6), (Kd::Extend, 4), (Kd::CloneFrom, 2), (Kd::GetMany, 2), (Kd::FillNoAlloc, 1)], rng));
+            g.allow_forget = true;
+            g.lying_hints = true;
+            g.max_hint = if world == "M16" || world == "Mpod" { 60000 } else { 3000 };
+            g.macro_den = *rng.pick(&[12, 25]);
+            RunSpec { world, cfg, gen: g, n_ops }
+        }
+        "C03" => {
+            let world = pick_world(rng, &[("M16", 5), ("M208", 2), ("M64a", 2), ("Mpod", 1)]);
+            let cfg = base_cfg(rng, 3);
+            let mut g = gen(Family::Map, universe, with(MAP_BUILD, &[(Kd::IntoIter, 8), (Kd::Drain, 6), (Kd::ExtractIf, 6), (Kd::Retain, 4), (Kd::Clear, 2), (Kd::CloneFrom, 6), (Kd::CloneTo, 2), (Kd::ShrinkTo, 3), (Kd::ShrinkToFit, 2), (Kd::New, 3), (Kd::DropSlot, 2), (Kd::RemoveEntry, 4), (Kd::Insert, 10), (Kd::Entry, 4)], rng));
+            g.macro_den = *rng.pick(&[12, 25]);
+            RunSpec { world, cfg, gen: g, n_ops }
+        }
         "C04" => {
             // short histories (each is re-executed once per injected panic), biased to re-hashing states
             let world = pick_world(rng, &[("M16", 4), ("Mpod", 4), ("M208", 1)]);
@@ -56,6 +86,109 @@ pub fn spec_for(prop: &str, thorough: bool, rng: &mut Rng) -> RunSpec {
             let mut g = gen(Family::Map, *rng.pick(&[12u32, 40, 64, 64, 100]), w);
             g.macro_den = *rng.pick(&[6, 10, 20]);
             let n_ops = rng.range(8, if thorough { 120 } else { 80 }) as usize;
+            RunSpec { world, cfg, gen: g, n_ops }
+        }
+        "C05" => {
+            // byzantine Hash and/or Eq for the whole run; safety subset of the oracles only
+            let world = pick_world(rng, &[("M16", 5), ("Mpod", 3), ("M208", 1)]);
+            let mut cfg = base_cfg(rng, 3);
+            cfg.functional = 0;
+            cfg.callback_cap = 1_000_000;
+            match rng.below(3) {
+                0 => {
+                    cfg.plans = (0..3).map(|_| Plan::random_byz(rng)).collect();
+                }
+                1 => {
+                    cfg.eq_mode = *rng.pick(&[EqMode::Random, EqMode::AlwaysTrue, EqMode::AlwaysFalse, EqMode::Asym]);
+                }
+                _ => {
+                    cfg.plans = (0..3).map(|_| Plan::random_byz(rng)).collect();
+                    cfg.eq_mode = *rng.pick(&[EqMode::Random, EqMode::AlwaysTrue, EqMode::AlwaysFalse, EqMode::Asym]);
+                }
+            }
+            let mut g = gen(Family::Map, universe.min(200), with(MAP_CORE, &[(Kd::Iter, 2), (Kd::Drain, 3), (Kd::ExtractIf, 2), (Kd::GetMany, 4), (Kd::GetManyKv, 2), (Kd::CloneFrom, 2), (Kd::IntoIter, 2), (Kd::FillNoAlloc, 2), (Kd::Entry, 6)], rng));
+            g.macro_den = *rng.pick(&[10, 20]);
+            RunSpec { world, cfg, gen: g, n_ops }
+        }
+        "C08" => {
+            let world = pick_world(rng, MAP_WORLDS);
+            let cfg = base_cfg(rng, 3);
+            let mut g = gen(Family::Map, universe, with(MAP_BUILD, &[(Kd::WithCapacity, 6), (Kd::New, 2), (Kd::DropSlot, 2), (Kd::Reserve, 8), (Kd::FillNoAlloc, 8), (Kd::Clear, 4), (Kd::Drain, 4), (Kd::ShrinkTo, 8), (Kd::ShrinkToFit, 4), (Kd::Remove, 10)], rng));
+            g.macro_den = *rng.pick(&[10, 20]);
+            RunSpec { world, cfg, gen: g, n_ops }
+        }
+        "C09" => {
+            let world = pick_world(rng, MAP_WORLDS);
+            let cfg = base_cfg(rng, 3);
+            let mut g = gen(Family::Map, universe, with(MAP_BUILD, &[(Kd::Iter, 30), (Kd::IntoIter, 10), (Kd::Drain, 8)], rng));
+            g.macro_den = *rng.pick(&[10, 20]);
+            RunSpec { world, cfg, gen: g, n_ops }
+        }
+        "C10" => {
+            let world = pick_world(rng, MAP_WORLDS);
+            let cfg = base_cfg(rng, 3);
+            let mut g = gen(Family::Map, universe, with(MAP_BUILD, &[(Kd::Retain, 14), (Kd::ExtractIf, 16), (Kd::Drain, 12)], rng));
+            g.toggle_pct = 60;
+            g.macro_den = *rng.pick(&[10, 20]);
+            RunSpec { world, cfg, gen: g, n_ops }
+        }
+        "C11" => {
+            let world = pick_world(rng, &[("M16", 5), ("M208", 2), ("M64a", 1), ("Mpod", 1)]);
+            let mut cfg = base_cfg(rng, 3);
+            // differently seeded hashers per slot
+            cfg.plans = (0..3).map(|_| Plan::random(rng)).collect();
+            let mut g = gen(Family::Map, universe.min(100), with(MAP_BUILD, &[(Kd::CloneTo, 8), (Kd::CloneFrom, 16), (Kd::EqSlots, 14), (Kd::GetMut, 3)], rng));
+            g.macro_den = *rng.pick(&[10, 20]);
+            RunSpec { world, cfg, gen: g, n_ops }
+        }
+        "C12" => {
+            let world = pick_world(rng, MAP_WORLDS);
+            let cfg = base_cfg(rng, 3);
+            let mut g = gen(Family::Map, universe, with(MAP_BUILD, &[(Kd::TryReserve, 30)], rng));
+            g.refusals = true;
+            g.huge_reserve = true;
+            g.macro_den = *rng.pick(&[10, 20]);
+            RunSpec { world, cfg, gen: g, n_ops }
+        }
+        "C13" => {
+            // long churn with bounded live size, no explicit reservation
+            let world = pick_world(rng, &[("M16", 3), ("Mpod", 3), ("M208", 1)]);
+            let mut cfg = base_cfg(rng, 3);
+            let p = match rng.below(8) {
+                0 | 1 | 2 => Plan::Seq,
+                3 => Plan::SeqTag { stride: 1, offset: rng.below(64) as u32, tags: vec![rng.below(128) as u8] },
+                4 => Plan::PosTag { pos: (0..*rng.pick(&[1usize, 2, 3, 16])).map(|_| rng.below(4096) as u32).collect(), tags: vec![], layer: 57, seed: rng.next() },
+                5 => rng.pick(&[Plan::Const0, Plan::ConstMax]).clone(),
+                _ => Plan::Mixed(rng.next()),
+            };
+            cfg.plans = vec![p.clone(), p.clone(), p];
+            cfg.churn_bound = 8;
+            cfg.callback_cap = 5_000_000;
+            let n = *rng.pick(&[1usize, 2, 3, 6, 7, 13, 14, 27, 28, 29, 50, 56, 100, 200]);
+            cfg.sweep_below = if n <= 30 { 48 } else { 0 };
+            let mut g = gen(Family::Map, 64, vec![(Kd::Insert, 1)]);
+            g.macro_den = 0;
+            g.churn = Some((n, rng.below(4) as u8));
+            let n_ops = if thorough { *rng.pick(&[5000usize, 5000, 20000, 100000]) } else { *rng.pick(&[2000usize, 5000, 5000]) };
+            RunSpec { world, cfg, gen: g, n_ops }
+        }
+        "C14" => {
+            let world = pick_world(rng, MAP_WORLDS);
+            let cfg = base_cfg(rng, 3);
+            let mut g = gen(Family::Map, universe, with(MAP_BUILD, &[(Kd::Entry, 50), (Kd::FillNoAlloc, 5), (Kd::New, 2)], rng));
+            g.macro_den = *rng.pick(&[6, 10, 20]);
+            RunSpec { world, cfg, gen: g, n_ops }
+        }
+        "C15" => {
+            let world = pick_world(rng, &[("M16", 5), ("Mpod", 2), ("M208", 1), ("M64a", 1)]);
+            let mut cfg = base_cfg(rng, 3);
+            if rng.below(3) == 0 {
+                // an equality that matches several entries: only "never alias" is then checked
+                cfg.eq_mode = *rng.pick(&[EqMode::AlwaysTrue, EqMode::Random]);
+                cfg.functional = 0;
+            }
+            let mut g = gen(Family::Map, universe.min(64), with(MAP_BUILD, &[(Kd::GetMany, 24), (Kd::GetManyKv, 12)], rng));
+            g.macro_den = *rng.pick(&[10, 20]);
             RunSpec { world, cfg, gen: g, n_ops }
         }
         _ => {
@@ -71,21 +204,30 @@ fn starts(c: &str, p: &str) -> bool {
     c.starts_with(p)
 }
 
+const MAP_CORE_OPS: &[&str] = &["Insert", "TryInsert", "Get", "GetMut", "GetView", "ContainsKey", "GetKeyValue", "GetKeyValueMut", "Remove", "RemoveEntry", "RemoveView", "Entry", "Extend", "ExtendRef", "FromIter", "Clear", "Reserve", "ShrinkTo", "ShrinkToFit", "Retain", "FillNoAlloc", "Finish", "New", "WithCapacity", "DropSlot"];
+
 /// Does `prop` own a violation of this class raised by this kind of operation?
 pub fn owns(prop: &str, v: &Violation) -> bool {
     let c = v.class.as_str();
     let k = v.op_kind.as_str();
-    let safety = starts(c, "inv/") || starts(c, "ledger/invalid-ref") || starts(c, "ledger/double-drop") || starts(c, "ledger/drop-unknown") || starts(c, "ledger/corrupt") || starts(c, "alloc/canary") || starts(c, "alloc/use-after-free") || starts(c, "alloc/bad-free") || starts(c, "alloc/double-free") || starts(c, "alloc/invalid-layout") || starts(c, "crash/") || starts(c, "hang/");
-    let map_core = ["Insert", "TryInsert", "Get", "GetMut", "GetView", "ContainsKey", "GetKeyValue", "GetKeyValueMut", "Remove", "RemoveEntry", "RemoveView", "Entry", "Extend", "ExtendRef", "FromIter", "Clear", "Reserve", "ShrinkTo", "ShrinkToFit", "Retain", "FillNoAlloc", "Finish", "New", "WithCapacity", "DropSlot"];
-    let functional = starts(c, "ret/") || starts(c, "contents/") || starts(c, "len/") || starts(c, "sweep/") || starts(c, "panic/") || starts(c, "entry/") || starts(c, "retain/");
+    // memory-safety monitors: structure invariants, ledger (double drop, dead reference), canaries, crashes
+    let safety = starts(c, "inv/") || starts(c, "ledger/invalid-ref") || starts(c, "ledger/double-drop") || starts(c, "ledger/drop-unknown") || starts(c, "ledger/corrupt") || starts(c, "alloc/canary") || starts(c, "alloc/use-after-free") || starts(c, "alloc/bad-free") || starts(c, "alloc/double-free") || starts(c, "alloc/invalid-layout") || starts(c, "alloc/layout-mismatch") || starts(c, "crash/") || starts(c, "hang/");
+    // functional disagreement with the reference model, attributed by the kind of the failing operation
+    let functional = starts(c, "ret/") || starts(c, "contents/") || starts(c, "len/") || starts(c, "sweep/") || starts(c, "panic/");
     match prop {
-        "C01" => functional && map_core.contains(&k),
-        "C02" => safety || starts(c, "panic/") || starts(c, "alloc/size-mismatch"),
+        "C01" => (functional || starts(c, "entry/") || starts(c, "retain/visits")) && MAP_CORE_OPS.contains(&k),
+        "C02" => safety || starts(c, "panic/") || starts(c, "alloc/size-mismatch") || starts(c, "alloc/over-reservation"),
         "C03" => starts(c, "ledger/") || starts(c, "alloc/leak") || starts(c, "alloc/double-free") || starts(c, "alloc/bad-free") || starts(c, "alloc/layout-mismatch") || starts(c, "alloc/size-mismatch") || starts(c, "cap/alloc-on-new"),
         "C04" => starts(c, "postpanic/") || safety || starts(c, "alloc/") || starts(c, "ledger/"),
+        "C05" => safety || starts(c, "diverge/") || starts(c, "byz/") || starts(c, "ledger/") || starts(c, "alloc/") || starts(c, "getmany/alias") || starts(c, "panic/"),
+        "C08" => starts(c, "cap/") || starts(c, "drain/allocation") || starts(c, "alloc/size-mismatch"),
+        "C09" => starts(c, "iter/") || starts(c, "iterlen/") || (functional && ["Iter", "IntoIter", "SetIter", "TIter"].contains(&k)),
+        "C10" => starts(c, "retain/") || starts(c, "extract/") || starts(c, "drain/") || (functional && ["Retain", "ExtractIf", "Drain"].contains(&k)),
+        "C11" => starts(c, "clone/") || starts(c, "eq/") || (functional && ["CloneTo", "CloneFrom", "EqSlots"].contains(&k)),
+        "C12" => starts(c, "tryreserve/") || starts(c, "alloc/invalid-layout") || (k == "TryReserve" && (functional || starts(c, "ledger/") || starts(c, "alloc/") || starts(c, "inv/"))),
+        "C13" => starts(c, "churn/") || starts(c, "inv/I4") || starts(c, "hang/") || starts(c, "diverge/"),
+        "C14" => starts(c, "entry/") || (k == "Entry" && (functional || starts(c, "inv/"))),
+        "C15" => starts(c, "getmany/") || (functional && ["GetMany", "GetManyKv", "TGetMany"].contains(&k)),
         _ => true,
     }
 }
-
-#[allow(dead_code)]
-fn _keep(_: Plan, _: EqMode) {}
